@@ -99,6 +99,11 @@ HISTORY = {
     "C13-join-key-only-tuples-no-assoc": "missed by every check at first: rows were plain keys or tuples with a payload; one-field tuple rows `(key)` added to the join built-in check",
     "C14-join-eq-tag-b-only": "missed by C14 (for-join loops over tables with a repeated key are outside the loop's precondition); C13 reports it through the join built-in, which must tolerate repeated keys",
     "C17-signed-split-max-not-examined": "missed by C17 at first (C08 caught it): the refutable patterns of the menu were literals, Booleans and small ranges; ranges that miss exactly one value at an end of i8 / u8 / i16 / i32 / u64 added",
+    "C01-unspecified-number-sign-extends": "missed by every check at first: no unsuffixed number in [2^31, 2^32) was given a wider type through a binding; 28 boundary templates (2^31-1, 2^31, 3000000000, 2^32-1 x let / array element / tuple element / for binding / cast / comparison) added to family I",
+    "C06-bristol-export-not-truncated": "missed by C06 at first (C11 caught it: its exports go over an older, longer file): the C06 exports always went to a fresh path; every export of a process but its first now finds an older, longer file at its path, so that the compilation histories compare it with the first export of a fresh process",
+    "C08-match-first-clause-not-coerced": "missed by C08 (its arm bodies are suffixed); C01 and C05 report it through the family I template `let r = match`",
+    "C12-external-values-keyed-by-plain-name": "missed by every check at first: the supplied values of the const sections had names no other constant had; sections where two parties supply a value of the same name and where a supplied value has the name of a constant of the program (declared before / after) added",
+    "C17-array-index-only-constrained": "missed by every check at first: the wrongly typed indices were a u8 literal; the kind-meets-type sweep gained the positions with a fixed expected type (index read / write / nested / before a field, shift amount) and 13 Boolean- or u16-valued holes rooted in a comparison, &&, ||, ^, a block, an if, a match, a cast, a sum; IndexNotUsize also puts a comparison at every index",
     "C17-match-arms-share-scope": "missed at first: UseAfterScope only covered loop variables and block locals; replaced by a reference model of lexical scoping (every use x every name bound elsewhere but not in scope)",
 }
 rows = []
